@@ -23,10 +23,9 @@ def replay(f):
         with open(os.path.join(tmp, "a.py"), "w") as fh:
             fh.write("def f(p):\n    return p\nx = f(1)\n")
         p1 = rproject.Project(tmp, save_history=True, save_objectdb=True, automatic_soa=False)
-        for i in range(w["nchanges"]):
-            cs1 = change.ChangeSet("change %d" % i)
-            cs1.add_change(change.ChangeContents(p1.get_file("a.py"), "def f(p):\n    return p\nx = f(%d)\n" % (i + 2)))
-            p1.do(cs1)
+        from harness import c18_script
+
+        c18_script.session1(p1, w["nchanges"], w.get("shape", "edits"))
         p1.pycore.analyze_module(p1.get_file("a.py"))
         p1.close()
         old_descs = [c.description for c in p1.history.undo_list]
@@ -35,9 +34,7 @@ def replay(f):
             path = os.path.join(tmp, name)
             old[name] = open(path, "rb").read() if os.path.exists(path) else None
         p2 = rproject.Project(tmp, save_history=True, save_objectdb=True, automatic_soa=False)
-        cs = change.ChangeSet("second session")
-        cs.add_change(change.ChangeContents(p2.get_file("a.py"), "def f(p):\n    return [p]\ny = f(1)\n"))
-        p2.do(cs)
+        c18_script.session2(p2, w.get("shape", "edits"))
         p2.close()
         new_descs = [c.description for c in p2.history.undo_list]
         new = {name: open(os.path.join(tmp, name), "rb").read() if os.path.exists(os.path.join(tmp, name)) else None for name in w["disk"]}
